@@ -18,3 +18,12 @@ impl FeoxStore {
     #[verifier::external_body]
     pub fn remove_expired_recovery_winners(&self, now: u64, format: &FormatAny, retired_extents: &mut Vec<(u64, usize)>) -> Result<()> { unimplemented!() }
 }
+
+// ---- read-only opens mask the journaled extents instead of replaying them (C15 / C04) ----
+pub open spec fn sorted_by_start(j: Seq<(u64, usize)>) -> bool {
+    forall|a: int, b: int| 0 <= a < b < j.len() ==> j[a].0 <= j[b].0
+}
+// sector s lies inside one of the journaled extents
+pub open spec fn in_journal(j: Seq<(u64, usize)>, s: int) -> bool {
+    exists|i: int| 0 <= i < j.len() && (#[trigger] j[i]).0 <= s < j[i].0 as int + j[i].1 as int
+}
